@@ -97,16 +97,69 @@ PLACEHOLDERS = ['"<Any value>"', '"x"', '"a much longer placeholder than the val
                 '7', '{"r":1}', '[1,"a"]', '""']
 
 
-def any_matcher(paths, ph=None, eom=True):
-    return 'A;%d;%s;%s' % (1 if eom else 0, hx(ph) if ph is not None else '-', ','.join(hx(p) for p in paths))
+# Configuration style of the built-in matchers.  A generator sets STYLE to its random.Random: a share of
+# the matcher tokens then asks the harness to build the matcher FIRST and to call its option methods
+# afterwards as statements, dropping what they return (`m := match.Any(…); m.ErrOnMissingPath(false)`),
+# instead of one chained expression.  Both spellings configure the same matcher.
+STYLE = None
 
 
-def type_matcher(paths, tname, eom=True):
-    return 'T;%d;%s;%s' % (1 if eom else 0, tname, ','.join(hx(p) for p in paths))
+def _flags(eom, stmt=None):
+    if stmt is None:
+        stmt = STYLE is not None and STYLE.random() < 0.3
+    return ('1' if eom else '0') + ('s' if stmt else '')
 
 
-def custom_matcher(path, ok=True, payload='"custom"', eom=True):
-    return 'C;%d;%s;%s;%s' % (1 if eom else 0, hx(path), 'ok' if ok else 'err', hx(payload))
+def any_matcher(paths, ph=None, eom=True, stmt=None):
+    return 'A;%s;%s;%s' % (_flags(eom, stmt), hx(ph) if ph is not None else '-', ','.join(hx(p) for p in paths))
+
+
+def type_matcher(paths, tname, eom=True, stmt=None):
+    return 'T;%s;%s;%s' % (_flags(eom, stmt), tname, ','.join(hx(p) for p in paths))
+
+
+def custom_matcher(path, ok=True, payload='"custom"', eom=True, stmt=None, fires=False):
+    """fires: the callback makes the Match* call armed by the preceding `nest` operation before it returns"""
+    return 'C;%s;%s;%s;%s' % (_flags(eom, stmt), hx(path), ('okx' if fires else 'ok') if ok else 'err', hx(payload))
+
+
+def composite_matcher(tokens, empty=True):
+    """a USER-DEFINED matcher (public interfaces match.JSONMatcher / match.YAMLMatcher) that groups other
+    matchers, applies them in order and collects their errors (the group fails as a whole); on success
+    it reports "no errors" as an empty non-nil slice (empty=True) or as nil"""
+    return 'W;%s;%s' % ('e' if empty else 'n', hx(' '.join(tokens)))
+
+
+def user_matcher(empty=True, copy=False, fires=False):
+    """a USER-DEFINED matcher that only inspects the document and hands it on unchanged; `fires`: it makes
+    the Match* call armed by the preceding `nest` operation (a re-entrant call from inside a matcher)"""
+    return 'U;%s%s%s' % ('e' if empty else 'n', 'c' if copy else '', 'x' if fires else '')
+
+
+def maybe_wrap(r, tokens, p=0.3):
+    """with probability p the list of matcher tokens is replaced by ONE composite wrapping them (same
+    effect when all succeed; when one fails the whole group's output is dropped), and now and then an
+    inspecting user matcher is put in front / behind"""
+    tokens = list(tokens)
+    if tokens and r.random() < p:
+        tokens = [composite_matcher(tokens, r.random() < 0.7)]
+    if r.random() < 0.15:
+        tokens.insert(r.randint(0, len(tokens)), user_matcher(r.random() < 0.6, r.random() < 0.3))
+    return tokens
+
+
+# replacement STRINGS that are not plain string scalars when written bare into a YAML document: the
+# value stored at the path must nevertheless be that string
+YAML_TRICKY_STRINGS = ['0000', 'true', 'null', '1.50', '~', 'yes', 'no', 'off', '12', '-7', '0x1F', '1e3', '2001-01-01',
+                       'a: b', '', ' ', ' lead', 'trail ', '# not a comment', '[a, b]', '{a: b}', "'single'", '"double"',
+                       '*alias', '&anchor', '!tag', '| block', '> folded', '@at', '`tick', '%pct', 'a #b', 'k: v: w',
+                       'Null', 'TRUE', 'False', '0o17', '+1', '1_000', 'é: ü']
+# NOT generated by default: on the unchanged tree these replacement strings do not arrive as themselves
+# (goccy/go-yaml's encoder writes them bare): '.inf' becomes the float +Inf, '- x' a sequence, '? q' a
+# mapping, '...' leaves the old value in place, '---' panics inside ReplaceWithReader, and a string with a
+# line break replaces the whole document when the path is nested.  Reported as a defect (REPORT_C.md);
+# VERIF_YAML_DEFECT_STRINGS=1 generates them.
+YAML_DEFECT_STRINGS = ['.inf', '- x', '? q', '---', '...', 'multi\nline']
 
 
 def go_type(v):
